@@ -193,7 +193,7 @@ class C04(E1Check):
         return {"N": 3, "D": 3} if self.tier == "quick" else {"N": 3, "D": 4, "max_states": 20000}
 
     def budget(self):
-        return 600 if self.tier == "quick" else 2400
+        return 600 if self.tier == "quick" else 1200
 
     def op_list(self, cfg):
         return c04_ops(self.alpha, cfg, self.tier)
